@@ -126,6 +126,10 @@ func init() {
 				lc, lr := c.replay("engine", rl.cases, replayOpts{opts: o})
 				c.judge("engine", lc, lr, func(cs, res map[string]J) string { in, _ := res["input"].(string); return in + fmt.Sprint(o) })
 			}
+			// longer tables with interleaving witnesses: the solutions of every group in solution order
+			ro := c.mcHolds("GenBag", "GenBag_order.cfg", tlcOpts{})
+			oc, or := c.replay("engine", ro.cases, replayOpts{})
+			c.judge("engine", oc, or, func(cs, res map[string]J) string { in, _ := res["input"].(string); return in })
 			c.engineTV(tvN(c), "bag")
 			c.exhaustive = true
 		},
